@@ -1,4 +1,4 @@
-(** C07, top level: for every op of the dispatcher (Model/C07.v [run], 41 ops) and every argument
+(** C07, top level: for every op of the dispatcher (Model/C07.v [run], 45 ops) and every argument
     list, whenever the independent judge (Judge/C07.v) has an opinion it accepts the model's output.
     Assembled from the functional theorems of Proofs/Time.v, C07Ops.v, C07Ndt.v; plus the function
     theorems of the four NaiveDateTime +- core::time::Duration ops. *)
@@ -723,6 +723,85 @@ Proof.
     apply (with_date_val y o (v <? 2000000000)); assumption.
 Qed.
 
+(** * the deprecated panicking NaiveDate::and_hms* *)
+Lemma date_dec y o : year_in_range y = true -> valid_yo y o = true ->
+  DateTime.dec_date (VTup [VInt y; VInt o]) = Some (C08Sweeps.mkdate y o) /\
+  Date.d_year (C08Sweeps.mkdate y o) = y /\ Date.d_ordinal (C08Sweeps.mkdate y o) = o.
+Proof.
+  intros Hy Ho.
+  pose proof (C08Date.repr_mk y o Hy Ho) as R. destruct (C08.repr_md y o _ R) as (E1 & E2 & _).
+  assert (Hy32 : in_i32 y = true) by (revert Hy; unfold year_in_range, MIN_YEAR, MAX_YEAR; solve_in).
+  assert (Ho32 : in_u32 o = true) by (revert Ho; unfold valid_yo, days_in_year; destruct (is_leap y); solve_in).
+  pose proof (C08Date.from_yo_opt_spec y o Hy32 Ho32) as F. rewrite Hy, Ho in F. cbn [andb C08Date.date_if] in F.
+  split; [|split; assumption].
+  unfold DateTime.dec_date. rewrite Hy32, Ho32, F. reflexivity.
+Qed.
+Lemma and_res_val y o (c : bool) s n :
+  val_of_R DateTime.enc_ndt (and_res (C08Sweeps.mkdate y o) c s n) =
+  J.on_date (Date.d_year (C08Sweeps.mkdate y o)) (Date.d_ordinal (C08Sweeps.mkdate y o))
+    (if c then VSome (J.enc_t s n) else VNone).
+Proof. destruct c; reflexivity. Qed.
+Lemma d4_holds scale g args :
+  (forall d h m s x, in_u32 h = true -> in_u32 m = true -> in_u32 s = true -> in_u32 x = true ->
+     g d h m s x = val_of_R DateTime.enc_ndt (and_res d (accept_hms_nano h m s (x * scale)) (secs_of_hms h m s) (x * scale))) ->
+  J.judge_dphms scale args (sh_d4 g args) <> JSkip -> J.judge_dphms scale args (sh_d4 g args) = JOk.
+Proof.
+  intros H. unfold J.judge_dphms.
+  destruct args as [|dv [|a [|b [|c [|e [|? ?]]]]]]; try congruence;
+  destruct dv as [| | | |al| | | |]; try congruence;
+  (destruct al as [|[y| | | | | | | |] al]; try congruence); (destruct al as [|[o| | | | | | | |] al]; try congruence);
+  destruct al; try congruence.
+  destruct (J.u32 a) as [h|] eqn:Ea; [|congruence]. destruct (J.u32 b) as [m|] eqn:Eb; [|congruence].
+  destruct (J.u32 c) as [s|] eqn:Ec; [|congruence]. destruct (J.u32 e) as [x|] eqn:Ee; [|congruence].
+  destruct (year_in_range y && valid_yo y o) eqn:E; [|congruence]. intros _.
+  apply andb_prop in E. destruct E as [Hy Ho]. destruct (date_dec y o Hy Ho) as (Md & E1 & E2).
+  destruct (u32_dec _ _ Ea) as (Ma & Ia & _). destruct (u32_dec _ _ Eb) as (Mb & Ib & _).
+  destruct (u32_dec _ _ Ec) as (Mc & Ic & _). destruct (u32_dec _ _ Ee) as (Me & Ie & _).
+  unfold sh_d4. rewrite Md, Ma, Mb, Mc, Me. apply hl_judge_eq_of. rewrite H by assumption.
+  rewrite and_res_val, E1, E2. reflexivity.
+Qed.
+Lemma holds_ndt_phms args : HOLDS "ndt.phms" args.
+Proof.
+  unfold HOLDS. rewrite (proj1 (dispatch_and_hms args)).
+  change (J.judge (B"ndt.phms") args) with
+    (fun out => match args with
+     | [VTup [VInt y; VInt o]; a; b; c] =>
+         match J.u32 a, J.u32 b, J.u32 c with
+         | Some h, Some m, Some s =>
+             if year_in_range y && valid_yo y o then judge_eq (J.on_date y o (J.exp_ctor h m s 0)) out else JSkip
+         | _, _, _ => JSkip end
+     | _ => JSkip end).
+  cbv beta.
+  destruct args as [|dv [|a [|b [|c [|? ?]]]]]; try congruence;
+  destruct dv as [| | | |al| | | |]; try congruence;
+  (destruct al as [|[y| | | | | | | |] al]; try congruence); (destruct al as [|[o| | | | | | | |] al]; try congruence);
+  destruct al; try congruence.
+  destruct (J.u32 a) as [h|] eqn:Ea; [|congruence]. destruct (J.u32 b) as [m|] eqn:Eb; [|congruence].
+  destruct (J.u32 c) as [s|] eqn:Ec; [|congruence].
+  destruct (year_in_range y && valid_yo y o) eqn:E; [|congruence]. intros _.
+  apply andb_prop in E. destruct E as [Hy Ho]. destruct (date_dec y o Hy Ho) as (Md & E1 & E2).
+  destruct (u32_dec _ _ Ea) as (Ma & Ia & _). destruct (u32_dec _ _ Eb) as (Mb & Ib & _).
+  destruct (u32_dec _ _ Ec) as (Mc & Ic & _).
+  unfold sh_d3. rewrite Md, Ma, Mb, Mc. apply hl_judge_eq_of.
+  rewrite (proj2 (nd_and_hms_spec _ h m s Ia Ib Ic)). rewrite and_res_val, E1, E2.
+  unfold J.exp_ctor. rewrite accept_nano0. reflexivity.
+Qed.
+Lemma holds_ndt_phms_milli args : HOLDS "ndt.phms_milli" args.
+Proof.
+  unfold HOLDS. rewrite (proj1 (proj2 (dispatch_and_hms args))). apply (d4_holds 1000000).
+  intros d h m s x Hh Hm Hs Hx. rewrite (proj2 (nd_and_hms_milli_spec d h m s x Hh Hm Hs Hx)). reflexivity.
+Qed.
+Lemma holds_ndt_phms_micro args : HOLDS "ndt.phms_micro" args.
+Proof.
+  unfold HOLDS. rewrite (proj1 (proj2 (proj2 (dispatch_and_hms args)))). apply (d4_holds 1000).
+  intros d h m s x Hh Hm Hs Hx. rewrite (proj2 (nd_and_hms_micro_spec d h m s x Hh Hm Hs Hx)). reflexivity.
+Qed.
+Lemma holds_ndt_phms_nano args : HOLDS "ndt.phms_nano" args.
+Proof.
+  unfold HOLDS. rewrite (proj2 (proj2 (proj2 (dispatch_and_hms args)))). apply (d4_holds 1).
+  intros d h m s x Hh Hm Hs Hx. rewrite (proj2 (nd_and_hms_nano_spec d h m s x Hh Hm Hs Hx)). rewrite Z.mul_1_r. reflexivity.
+Qed.
+
 (** * top level *)
 Ltac op_case_at o s lem :=
   destruct (op_is o s) eqn:?;
@@ -754,6 +833,8 @@ Proof.
   op_case "t.phms"%string holds_phms. op_case "t.phms_milli"%string holds_phms_milli.
   op_case "t.phms_micro"%string holds_phms_micro. op_case "t.phms_nano"%string holds_phms_nano.
   op_case "t.pnsfm"%string holds_pnsfm.
+  op_case "ndt.phms"%string holds_ndt_phms. op_case "ndt.phms_milli"%string holds_ndt_phms_milli.
+  op_case "ndt.phms_micro"%string holds_ndt_phms_micro. op_case "ndt.phms_nano"%string holds_ndt_phms_nano.
   intros H. exfalso. apply H. unfold J.judge.
   repeat match goal with E : op_is _ _ = false |- _ => rewrite E; clear E end. reflexivity.
 Qed.
